@@ -39,6 +39,7 @@ func init() {
 		Rule{ID: "R02h", Doc: "the name decoder returns the offset after the first pointer / the end of a pointer-free name", Floor: 3, AllVariants: true, Run: r02h},
 		Rule{ID: "R02i", Doc: "appends into a fixed scratch array (the name decoder's buffer) never outgrow it", Floor: 2, AllVariants: true, Run: r02i},
 		Rule{ID: "R20k", Doc: "the sections of a (recycled) message never share a backing array (decoding the authority section would overwrite the answers; shared with C20)", Floor: 8, Run: r20k},
+		Rule{ID: "R20n", Doc: "records released by a failing decoder are not left in the section slice it hands back (they would be pooled twice and two later records would share one object; shared with C20)", Floor: 1, Run: r20n},
 	)
 }
 
